@@ -10,7 +10,7 @@
     has been applied"; [applied_cap] = realCapacity - pending deltas + queued shrinks. *)
 From EG.lib Require Import Base.
 From EG.model Require Import Sem.
-From EG.proofs Require Import SemProofs SemProofs2 SemProofs3.
+From EG.proofs Require Import SemProofs SemProofs2 SemProofs3 SemProofs4.
 Open Scope Z_scope.
 
 (** accounting invariant of the pre-acquired semaphore, in every reachable state *)
@@ -102,6 +102,28 @@ Theorem C17_mqtt_released_capacity : forall cap ls,
   (live s = [] -> clients s = []).
 Proof. exact T_mqtt_released_capacity. Qed.
 Print Assumptions C17_mqtt_released_capacity.
+
+(** MQTT: the connections the broker still SERVES (accepted, not torn down, Client.close() not
+    run) are never more than maxAllowedConnection and each is the registered client of its id -
+    for any quirks and any label sequence, including deleteSession executed as two critical
+    sections ([MDelLookup] ... [MDelRemove], removal re-checked against the looked-up client)
+    around same-id reconnects, takeovers and tear-downs *)
+Theorem C17_mqtt_served_cap :
+  (forall q cap ls, 0 < cap -> nserved (mrun q (minit cap) ls) <= cap) /\
+  (forall q cap ls k cid, let s := mrun q (minit cap) ls in
+     live_cid k (live s) = Some cid -> mem_N k (dead s) = false -> alookup cid (clients s) = Some k).
+Proof. split; [exact mqtt_served_cap | exact mqtt_served_registered]. Qed.
+Print Assumptions C17_mqtt_served_cap.
+
+(** documented: with an unconditional removal in the second critical section the reconnected
+    client loses its entry but stays served, and the cap of 2 admits a third client *)
+Theorem C17_unguarded_delete_exceeds_cap :
+  let s1 := mrun ideal (minit 2) [MCheck 0%N; MCommit 0%N "x" false; MDelLookup "x"; MCheck 1%N; MCommit 1%N "x" false] in
+  let tail := [MCheck 2%N; MCommit 2%N "y" false; MCheck 3%N; MCommit 3%N "z" false] in
+  nserved (mrun ideal (unguarded_remove s1 "x") tail) = 3 /\
+  nserved (mrun ideal (fst (mstep ideal s1 (MDelRemove 0))) tail) = 2.
+Proof. exact unguarded_delete_exceeds_cap. Qed.
+Print Assumptions C17_unguarded_delete_exceeds_cap.
 
 (** documented behaviour outside the "cap unchanged and applied" premise: while a shrink and
     a grow are outstanding, 7 (re-ordered goroutines) resp. 6 (in order, an acceptor queued
